@@ -89,6 +89,8 @@ def rule_log_adapter(ctx, p, cfg, rid="F7"):
 
 def run_cfg(ctx, p, cfg):
     rule_log_adapter(ctx, p, cfg, "F7")
+    from rules import c01
+    c01.rule_index_table(ctx, p, cfg, "F8")   # "decided per appender by its own chain": the position a logger holds names the appender it was attached to (C01.R8 re-evaluated)
     if "config_parsing" in p.meta.get("features", []):
         from rules import c14
         c14.rule_filters_per_appender(ctx, p, cfg, "F6")   # one appender's (failed) declaration cannot put filters in front of another
